@@ -91,3 +91,142 @@ class ModelCloud:
                 lst = self.token_for(fields.get("udpid", "")) if self.token_for else self.token_list
             return httpx.Response(200, request=request, text=json.dumps({"errorCode": "0", "msg": "ok", "result": {"tokenlist": lst}}))
         return httpx.Response(404, request=request, text="no such endpoint")
+
+
+# ------------------------------------------------------------------------------------------------------------
+# SmartHome (MSmartHome) cloud - spec growth (spec/SmartHome.tla); verification with hashlib / hmac / refcrypto only
+# ------------------------------------------------------------------------------------------------------------
+import hmac as _hmac
+from urllib.parse import parse_qs
+
+from . import refcrypto as _rc
+
+SH_HMAC_KEY = b"PROD_VnoClJI9aikS8dyy"
+SH_APP_KEY = b"ac21b9f9cbfe4ca5a88562ef25e2b768"
+SH_KIND = {"/v1/user/login/id/get": "lid", "/mj/user/login": "login", "/v2/luaEncryption/luaGet": "lua", "/v1/plugin/update/overseas/get": "plug"}
+_NO_O = {k: [] for k in ("hmac_key", "hmac_msg", "hmac_out", "pw1_in", "pw1_out", "pw2_in", "pw2_out", "md1_in", "md1_out", "md2_in", "md2_out",
+                         "iam_in", "iam_out", "kd_in", "kd_out", "aes_key", "aes_iv", "aes_in", "aes_out")}
+
+
+def _s(x):
+    return B(x.encode("utf-8")) if isinstance(x, str) else []
+
+
+class ModelSmartHome:
+    """Answers what it is scripted to answer and records every request with reference evaluations of the primitives
+    (inputs as a conforming server would compute them from ITS OWN state; the spec re-derives and compares them)."""
+
+    def __init__(self, account: str, password: str, *, rng, cn=False):
+        self.account, self.password, self.rng, self.cn = account, password, rng, cn
+        self.script = []
+        self.events = []
+        self.login_id = ""
+        self.sn = ""                  # serial number of the running call (told by the driver, as a server would know its appliances)
+        self.files = {}               # url -> (kind, payload bytes)
+        self.iot = b"prod_secret123@muc" if cn else b"meicloud"
+        self.lk = b"ad0ee21d48a64bf49f4fb583ab76e799" if cn else b"ac21b9f9cbfe4ca5a88562ef25e2b768"
+
+    def client(self):
+        return httpx.AsyncClient(transport=httpx.MockTransport(self.handle))
+
+    def _fresh(self, n=16):
+        return "".join(self.rng.choice("0123456789abcdef") for _ in range(n))
+
+    def _kd(self):
+        d = hashlib.sha256(SH_APP_KEY).digest()
+        return d, d.hex()[:16].encode(), d.hex()[16:32].encode()
+
+    def handle(self, request: httpx.Request) -> httpx.Response:
+        if request.method == "GET":
+            return self.handle_get(request)
+        out = self.script.pop(0) if self.script else "ok"
+        alias = parse_qs(request.url.query.decode("ascii")).get("alias", [""])[0]
+        kind = SH_KIND.get(alias, "?")
+        content = request.content
+        try:
+            body = json.loads(content.decode("utf-8"))
+        except Exception:  # noqa: BLE001
+            body = {}
+        h = request.headers
+        rnd = h.get("random", "")
+        msg = self.iot + content + rnd.encode("ascii", "replace")
+        o = dict(_NO_O)
+        o.update(hmac_key=B(SH_HMAC_KEY), hmac_msg=B(msg), hmac_out=B(_hmac.new(SH_HMAC_KEY, msg, hashlib.sha256).digest()))
+        bd = {"account": [], "password": [], "iampwd": [], "sn": [], "atype": [], "model": []}
+        if kind == "lid":
+            bd["account"] = _s(body.get("loginAccount"))
+        elif kind == "login":
+            iot = body.get("iotData", {}) if isinstance(body.get("iotData"), dict) else {}
+            bd.update(account=_s(iot.get("loginAccount")), password=_s(iot.get("password")), iampwd=_s(iot.get("iampwd")))
+            pw = self.password.encode("ascii")
+            h1 = hashlib.sha256(pw).digest()
+            pw2_in = self.login_id.encode() + h1.hex().encode() + self.lk
+            m1 = hashlib.md5(pw).digest()
+            m2 = hashlib.md5(m1.hex().encode()).digest()
+            iam_in = self.login_id.encode() + m2.hex().encode() + self.lk
+            o.update(pw1_in=B(pw), pw1_out=B(h1), pw2_in=B(pw2_in), pw2_out=B(hashlib.sha256(pw2_in).digest()), md1_in=B(pw), md1_out=B(m1),
+                     md2_in=B(m1.hex().encode()), md2_out=B(m2), iam_in=B(iam_in), iam_out=B(hashlib.sha256(iam_in).digest()))
+        elif kind == "lua":
+            bd.update(sn=_s(body.get("applianceSn")), atype=_s(body.get("applianceType")))
+            d, key, iv = self._kd()
+            padded = _rc.pkcs7_pad(self.sn.encode("utf-8"))
+            o.update(kd_in=B(SH_APP_KEY), kd_out=B(d), aes_key=B(key), aes_iv=B(iv), aes_in=B(padded), aes_out=B(_rc.cbc_encrypt(key, padded, iv)))
+        elif kind == "plug":
+            al = body.get("applianceList")
+            a0 = al[0] if isinstance(al, list) and al and isinstance(al[0], dict) else {}
+            bd.update(atype=_s(a0.get("appType")), model=_s(a0.get("appModel")))
+        ev = {"ev": "req", "path": _s(request.url.path), "alias": _s(alias),
+              "hdr": {"sign": _s(h.get("sign", "")), "random": _s(rnd), "token": _s(h.get("accessToken", "")), "sver": _s(h.get("secretVersion", "")),
+                      "ctype": _s(h.get("content-type", ""))},
+              "content": B(content), "body": bd, "o": o, "out": out, "lid": [], "tok": [], "fname": [], "url": []}
+        self.events.append(ev)
+        if out == "timeout":
+            raise httpx.ReadTimeout("model cloud: no answer", request=request)
+        if out == "http":
+            return httpx.Response(self.rng.choice([400, 403, 404, 500, 502, 503]), request=request, text="error")
+        if out == "api":
+            return httpx.Response(200, request=request, text=json.dumps({"code": self.rng.choice([1, "40001", 3101, "65012"]), "msg": "model cloud api error"}))
+
+        def ok(data):
+            return httpx.Response(200, request=request, text=json.dumps({"code": self.rng.choice([0, "0"]), "msg": "ok", "data": data}))
+        if kind == "lid":
+            self.login_id = self._fresh(24)
+            ev["lid"] = _s(self.login_id)
+            return ok({"loginId": self.login_id})
+        if kind == "login":
+            tok = self._fresh(40)
+            ev["tok"] = _s(tok)
+            return ok({"mdata": {"accessToken": tok, "tokenPwdInfo": {}}, "uid": "1", "nickName": "x"})
+        if kind in ("lua", "plug"):
+            name = ("T_0000_%s_%s.lua" if kind == "lua" else "plugin_%s_%s.zip") % (self._fresh(2).upper(), self._fresh(8))
+            url = "https://files.model-cloud.test/%s/%s?sig=%s" % (kind, name, self._fresh(12))
+            if kind == "lua":
+                text = "-- lua %s\nfunction jsonToData(j) return '%s' end\n" % (self._fresh(6), self._fresh(self.rng.randrange(0, 40)))
+                payload = text.encode("utf-8")
+            else:
+                payload = self.rng.randbytes(self.rng.randrange(0, 96))
+            self.files[url] = (kind, payload)
+            ev["fname"], ev["url"] = _s(name), _s(url)
+            return ok({"fileName": name, "url": url} if kind == "lua" else {"result": [{"title": name, "url": url, "version": "1"}]})
+        return httpx.Response(404, request=request, text="no such endpoint")
+
+    def handle_get(self, request: httpx.Request) -> httpx.Response:
+        out = self.script.pop(0) if self.script else "ok"
+        url = str(request.url)
+        kind, payload = self.files.get(url, ("?", b""))
+        o = dict(_NO_O)
+        ev = {"ev": "get", "url": _s(url), "out": out, "text": [], "content": [], "o": o}
+        self.events.append(ev)
+        if out == "timeout":
+            raise httpx.ReadTimeout("model cloud: no answer", request=request)
+        if out == "http":
+            return httpx.Response(self.rng.choice([403, 404, 500, 503]), request=request, text="error")
+        if kind == "lua":
+            d, key, iv = self._kd()
+            padded = _rc.pkcs7_pad(payload)
+            ct = _rc.cbc_encrypt(key, padded, iv)
+            ev["text"] = _s(ct.hex())
+            o.update(kd_in=B(SH_APP_KEY), kd_out=B(d), aes_key=B(key), aes_iv=B(iv), aes_in=B(ct), aes_out=B(_rc.cbc_decrypt(key, ct, iv)))
+            return httpx.Response(200, request=request, text=ct.hex())
+        ev["content"] = B(payload)
+        return httpx.Response(200, request=request, content=payload)
